@@ -297,7 +297,8 @@ def decls(program: dict) -> dict:
                     d["step"][a["label"]] = {
                         "script": path, "inp": sorted(a.get("inp", [])), "env": sorted(a.get("env", [])),
                         "out": sorted(a.get("out", [])), "vol": sorted(a.get("vol", [])), "need": need,
-                        "resources": a.get("resources", {})}
+                        "resources": a.get("resources", {}),
+                        "ovr": sorted(f"{k}={v}" for k, v in (a.get("env_overrides") or {}).items())}
                 elif op == "if_exists":
                     walk(a.get("then", []))
                     walk(a.get("else", []))
@@ -344,7 +345,7 @@ def edit_kinds(project: e3.Project, history: list) -> list:
             kinds.add(("subplan-" if plan else "step-") + ("readded" if l in seen_steps else "added"))
         for l in set(after["step"]) & set(before["step"]):
             a, b = before["step"][l], after["step"][l]
-            for f in ("inp", "env", "out", "vol"):
+            for f in ("inp", "env", "out", "vol", "ovr"):
                 if a[f] != b[f]:
                     less, more = set(a[f]) - set(b[f]), set(b[f]) - set(a[f])
                     kinds.add(f"step-redefined:{f}" + ("-" if less else "") + ("+" if more else ""))
@@ -429,7 +430,7 @@ def subject_edit_kinds(project: e3.Project, history: list, steps: set, files: se
             elif b is None:
                 out.add(prefix + word + ("readded" if l in seen_steps else "added"))
             else:
-                for f in ("inp", "env", "out", "vol"):
+                for f in ("inp", "env", "out", "vol", "ovr"):
                     if a[f] != b[f]:
                         less, more = set(b[f]) - set(a[f]), set(a[f]) - set(b[f])
                         out.add(prefix + f"step-redefined:{f}" + ("-" if less else "") + ("+" if more else ""))
@@ -547,6 +548,7 @@ SIG_F6 = "C01:F6:env-var-restored-to-declared-value-leaves-stale-output"
 SIG_F7 = "C01:F7:env-var-changed-while-step-detached-then-recycled"
 SIG_F8 = "C01:F8:glob-match-added-while-registrant-detached-then-recycled"
 SIG_F9 = "C01:F9:products-of-plan-that-cannot-rerun-keep-consumer-succeeded"
+SIG_F10 = "C01:F10:env-overrides-changed-on-fully-recycled-step-leaves-stale-output"
 MISSING_RE = "PathError: Path does not exist: "
 
 
@@ -576,6 +578,23 @@ def _downstream(view: dict, seeds: set) -> set:
             todo.extend(o for o, _ in ent["out"])
         todo.extend(consumers.get(k, ()))
     return seen
+
+
+def overrides_edited(case: dict) -> set:
+    """Labels of the steps whose environment overrides a plan edit of the history added, changed
+    or removed while the rest of the definition (inputs, variables, outputs) stayed as it was."""
+    proj = e3.Project.from_json(case["project"])
+    out = set()
+    for phase in case["history"]:
+        before = decls(proj.program)["step"]
+        for edit in phase.get("edits", []):
+            e3.apply_edit(proj, None, edit)
+        after = decls(proj.program)["step"]
+        for l in set(before) & set(after):
+            a, b = before[l], after[l]
+            if a["ovr"] != b["ovr"] and all(a[f] == b[f] for f in ("inp", "env", "out", "vol")):
+                out.add(l)
+    return out
 
 
 def signatures(inc: e3.BuildResult, scr: e3.BuildResult, diffs: list, case: dict | None = None,
@@ -688,6 +707,31 @@ def signatures(inc: e3.BuildResult, scr: e3.BuildResult, diffs: list, case: dict
         cone = _downstream(va, blocked) | _downstream(vb, blocked)
         mine = [d for d in diffs if id(d) not in explained and (d["kind"] == "rc" or d["key"] in cone)]
         sigs[SIG_F4] = mine
+        explained |= {id(d) for d in mine}
+    # F10: the environment overrides of a step were edited (the rest of its definition not): the
+    # step was fully recycled (Step.can_recycle does not look at the overrides), after_recycle
+    # stored the new overrides -- the stored ones EQUAL the from-scratch ones -- and kept the
+    # state: SUCCEEDED with the output and the input digest of the run under the old overrides,
+    # none of its inputs differs.  (When the stored overrides differ as well, the cause is another
+    # one and nothing is claimed here.)
+    differing0 = {d["key"] for d in diffs}
+    edited = overrides_edited(case) if case is not None else set()
+    stale_ovr = set()
+    for d in diffs:
+        if d["kind"] == "content" and id(d) not in explained and edited:
+            c = va.get(d["key"], {}).get("creator")
+            ent, entb = va.get(c), vb.get(c)
+            if ent and entb and c.split(":", 1)[1] in edited and ent["state"] == "SUCCEEDED" \
+                    and entb["state"] == "SUCCEEDED" \
+                    and ent["props"]["env_overrides"] == entb["props"]["env_overrides"] \
+                    and not any(sk in differing0 for sk, _, _ in ent["inp"]) \
+                    and raw_inc.get(c, {}).get("props", {}).get("inp_digest") != \
+                    raw_scr.get(c, {}).get("props", {}).get("inp_digest"):
+                stale_ovr.add(c)
+    if stale_ovr:
+        cone = _downstream(va, stale_ovr) | _downstream(vb, stale_ovr)
+        mine = [d for d in diffs if id(d) not in explained and (d["kind"] == "rc" or d["key"] in cone)]
+        sigs[SIG_F10] = mine
         explained |= {id(d) for d in mine}
     # F6: a SUCCEEDED step with tracked variables has outputs that differ from the from-scratch
     # ones although none of its inputs differs, and its recorded input digest differs too: it ran
